@@ -198,3 +198,40 @@ def same_snapshot(I, a, b):
         if fs[-1]:
             fs.extend((x is None and y is None) or (x is not None and y is not None and _same(I, x, y)) for x, y in zip(a["charges"], b["charges"]))
     return I.and_(*fs)
+
+
+def mk_ens(V, nc=2, na=2, bonds=((0, 1),), name="e"):
+    """a ConformerEnsemble with nc conformers of na atoms (symbolic coordinates, charges, weights)"""
+    I, st = V.I, V.st
+    cls = V.cls(CLS["ConformerEnsemble"])
+    e = Obj(cls, {}, tag=name)
+    atoms = [mk_atom(V, f"{name}_a{i}", parent=e) for i in range(na)]
+    e.fields.update({"_name": V.sym(f"{name}_name", "str"), "charge": V.sym(f"{name}_charge", "int"),
+                     "mult": V.sym(f"{name}_mult", "int"), "attrib": DictV(), "_atoms": ListV(atoms),
+                     "_bonds": ListV([mk_bond(V, f"{name}_b{j}", atoms[p], atoms[q], parent=e) for j, (p, q) in enumerate(bonds) if p < na and q < na])})
+    c = NP.mk([[[V.sym(f"{name}_x{i}_{j}_{k}", "real") for k in range(3)] for j in range(na)] for i in range(nc)], "float")
+    c.tail = (nc, na, 3)
+    q = NP.mk([[V.sym(f"{name}_q{i}_{j}", "real") for j in range(na)] for i in range(nc)], "float")
+    q.tail = (nc, na)
+    w = NP.mk([V.sym(f"{name}_w{i}", "real") for i in range(nc)], "float")
+    w.tail = (nc,)
+    e.fields.update({"_coords": c, "_atomic_charges": q, "_weights": w})
+    return e
+
+
+def rect(V, e, label="rect"):
+    """rectangularity invariant of C14"""
+    out = []
+    na = len(e.fields["_atoms"].items) if isinstance(e.fields.get("_atoms"), ListV) else None
+    c, q, w = e.fields.get("_coords"), e.fields.get("_atomic_charges"), e.fields.get("_weights")
+    okc = isinstance(c, NdArr) and c.data is not None and len(c.tail) == 3 and c.tail[1:] == (na, 3)
+    out.append(("coords-are-(nc,na,3)", okc))
+    nc = c.tail[0] if okc else None
+    out.append(("charges-are-(nc,na)", isinstance(q, NdArr) and q.data is not None and q.tail == (nc, na) and q.dtype == "float"))
+    out.append(("weights-are-(nc,)", isinstance(w, NdArr) and w.data is not None and w.tail == (nc,)))
+    return [(f"{label}/{l}", z3.BoolVal(bool(f))) for l, f in out]
+
+
+def ensure_rect(V, e, label):
+    for l, f in rect(V, e, label):
+        V.ensure(l, f)
